@@ -87,6 +87,10 @@ def _tokens(node):
     return out
 
 
+_REFACTOR_TOKENS = {"Call", "Attribute", "ListComp", "GeneratorExp", "SetComp", "DictComp", "Lambda", "IfExp", "FunctionDef", "For", "While", "With",
+                    "Try", "If", "Return", "comprehension", "Starred", "JoinedStr", "FormattedValue", "Dict", "NamedExpr", "Assign", "AugAssign", "Expr"}
+
+
 def similar(a, b, threshold=0.72):
     """Are two skeleton token strings near misses of each other (small edit, same construct)?"""
     if a == b:
@@ -95,7 +99,30 @@ def similar(a, b, threshold=0.72):
     ta, tb = a.split(), b.split()
     if not ta or not tb:
         return False
-    return difflib.SequenceMatcher(None, ta, tb, autojunk=False).ratio() >= threshold
+    sm = difflib.SequenceMatcher(None, ta, tb, autojunk=False)
+    if sm.ratio() < threshold:
+        return False
+    # a near miss is a small edit of the SAME construct: the tokens that differ are operators' operands, constants, names, subscripts,
+    # comparisons ... - not calls turned into subscripts, comprehensions into map(), inlined or extracted helpers, re-nested control flow,
+    # which are the signature of a refactoring and must end as UNDECIDED
+    changed = set()
+    for tag, i1, i2, j1, j2 in sm.get_opcodes():
+        if tag != "equal":
+            changed |= set(ta[i1:i2]) | set(tb[j1:j2])
+    if not (changed & _REFACTOR_TOKENS):
+        return True
+    return "refactor-tokens"
+
+
+def edit_size(a, b):
+    """number of tokens inserted / deleted / replaced between two skeleton strings"""
+    import difflib
+    ta, tb = a.split(), b.split()
+    sm = difflib.SequenceMatcher(None, ta, tb, autojunk=False)
+    return sum(max(i2 - i1, j2 - j1) for tag, i1, i2, j1, j2 in sm.get_opcodes() if tag != "equal")
+
+
+LOCAL_EDIT_TOKENS = 12
 
 
 class Ob:
@@ -106,7 +133,7 @@ class Ob:
     construct confirmed on the reference tree (same skeleton, different leaves); otherwise it is UNDECIDED
     (unrecognised shape, e.g. after a refactoring) and counts as an analysis error, never as a violation."""
 
-    __slots__ = ("rule", "clause", "file", "line", "func", "construct", "ok", "detail", "slot", "positive", "skel", "status", "skel_kind", "force_undecided")
+    __slots__ = ("rule", "clause", "file", "line", "func", "construct", "ok", "detail", "slot", "positive", "skel", "status", "skel_kind", "force_undecided", "fn_skel")
 
     def __init__(self, rule, clause, fn, node, ok, detail, construct=None, slot=None, positive=False, undecided=False):
         self.rule = rule
@@ -135,6 +162,17 @@ class Ob:
             "compound" if isinstance(st, (ast.If, ast.For, ast.While, ast.With, ast.Try)) else "simple")
         self.force_undecided = bool(undecided)
         self.status = "holds" if self.ok else "unclassified"
+        # skeleton of the whole enclosing function (cached on the function object): used to tell a local edit from a restructuring
+        self.fn_skel = None
+        if fn is not None and hasattr(fn, "node"):
+            fs = getattr(fn, "_fn_skel_cache", None)
+            if fs is None:
+                try:
+                    fs = skeleton(fn.node)
+                    fn._fn_skel_cache = fs
+                except Exception:
+                    fs = None
+            self.fn_skel = fs
 
     @property
     def key(self):
@@ -188,10 +226,22 @@ def classify(obs):
             o.status = "holds"
         elif o.force_undecided and not o.positive:
             o.status = "undecided"
-        elif o.positive or any(similar(o.skel, r, {"def": 1.0, "compound": 0.85, "simple": 0.72}[o.skel_kind]) for r in refs.get(o.key, ())):
+        elif o.positive:
             o.status = "violated"
         else:
-            o.status = "undecided"
+            verdicts = [similar(o.skel, r, {"def": 1.0, "compound": 0.85, "simple": 0.72}[o.skel_kind]) for r in refs.get(o.key, ())]
+            if any(v is True for v in verdicts):
+                o.status = "violated"
+            elif any(v == "refactor-tokens" for v in verdicts):
+                # the statement was edited with calls / comprehensions / attributes changing: a violation only if the rest of the function is untouched
+                # (a local slip), UNDECIDED if the function was restructured
+                fref = refs.get("__functions__", {}).get(o.func) if isinstance(refs.get("__functions__"), dict) else None
+                if fref is not None and o.fn_skel is not None and edit_size(o.fn_skel, fref) <= LOCAL_EDIT_TOKENS:
+                    o.status = "violated"
+                else:
+                    o.status = "undecided"
+            else:
+                o.status = "undecided"
     return obs
 
 
